@@ -215,7 +215,7 @@ def run(spec):
         return outcome(name, "inconclusive", detail=f"denotation: {ex}", sample=sample)
     res = []
     r = solve.prove_all_zero(diffs, timeout=spec.get("timeout", 120), label=name)
-    ok, bad = solve.discharge_lemmas()
+    ok, bad = solve.discharge_lemmas(timeout=spec.get("timeout", 120))
     st = r.status if not (r.status == "proved" and bad) else "inconclusive"
     res.append(outcome(name, st, stage=r.stage, detail=(r.detail or "") + (" predicate equations fail" if st == "violated" else ""),
                        witness=r.witness, sample=sample, n_equations=len(eqs)))
